@@ -374,6 +374,8 @@ class AbstractDateTime(AnyAtomicType):
             return '-0001' if self._xsd_version == '1.0' else '0000'
         elif 0 <= year <= 9999:
             return '{:04}'.format(year)
+        elif year < 0 and self._xsd_version != '1.0':
+            return '{:05}'.format(year + 1)  # -10000 is written -9999 in XSD 1.1
         else:
             return str(year)
 
